@@ -127,3 +127,19 @@ _reg(
     "DESIGN.md 3/C04",
     "Exploration over all registered symbolic-dimension programs and a hand-written shape-arithmetic family; one export, many bindings.",
 )
+
+_reg(
+    "C12",
+    "exploration",
+    "cases = 20 hand-written NHWC programs (residual adds, per-channel scale, ReduceMean over H,W, user transposes, Max/Min against "
+    "NCHW-shaped operands, pass-through inputs, mixed rank, conv/pool, symbolic batch, add forests; square spatial dims so wrong "
+    "permutations still type-check) + registered testcases with a 4-D input + 11 invalid-flag requests. Per program all subsets of "
+    "flaggable inputs x all subsets of flaggable outputs are exported (exhaustive per program up to the cap, else sampled and said so) and "
+    "ORT(flagged)(NCHW feeds) is compared with the correspondingly transposed ORT(plain)(feeds) on two draws; thorough repeats the "
+    "hand-written family with the optimizer disabled. evaluations = flagged exports executed; non-trivial = a flag subset whose flagged "
+    "model ran and was compared element-wise, or an invalid request that was rejected; distinct = (program, subset).",
+    (250, 200, 1000, 800),
+    "differential runtime monitor over flag subsets: ORT(flagged model)(NCHW x) vs NCHW(ORT(plain model)(x))",
+    "DESIGN.md 3/C12",
+    "Exploration, flag subsets exhaustive per program (up to 16/64 subsets, sampled beyond and recorded).",
+)
